@@ -57,3 +57,20 @@ Example C02_example_F1_witnesses :
   validate [250; 255; 0; 255; 2] = VErr VTooFewExt /\ validate [250; 255; 0; 5; 252] = VErr VSize /\
   validate [250; 255; 0; 0; 1; 0] = VErr VSize.
 Proof. repeat split. Qed.
+
+(* the client clause: under every fragmentation the client behaves as the abstract client (C03_client_refines_spec),
+   and the abstract client reports success only for a well-formed frame and exposes measurement packets only then *)
+Require Import Lib.Bufio Spec.StreamSpec Model.Client Spec.ClientSpec Spec.ClientOps Proofs.ScanThm2 Proofs.ClientProofs Proofs.SpecClientProofs.
+
+Theorem C02_client_refines_spec : forall stream sch fin ewd wplan ops,
+  sched_ok sch -> (ewd = false \/ snd (segT stream) = SEnd) ->
+  Forall2 agrees (m_run (new_client (mk stream sch fin ewd) wplan) ops) (s_run (snew stream fin wplan) ops).
+Proof. exact client_refines_spec. Qed.
+Print Assumptions C02_client_refines_spec.
+
+Theorem C02_client_exposes_only_wf : forall sc,
+  let '(r, sc') := sreceive sc in
+  (r = ROk -> exists t, scur sc' = Some t /\ wf_frameb t = true) /\
+  (spkts sc' <> [] -> r = ROk).
+Proof. exact only_wf_exposed. Qed.
+Print Assumptions C02_client_exposes_only_wf.
